@@ -30,6 +30,7 @@ type AbsKind struct {
 	Null bool `json:"null"`
 	Meta bool `json:"meta"`
 	URL  bool `json:"url"`
+	Dep  bool `json:"dep"` // deprecated: true
 }
 
 type AbsQuery struct {
